@@ -16,6 +16,16 @@ type Canonical struct{}
 
 func (Canonical) Intn(int, string) int { return 0 }
 
+// Forced is the canonical layout except for the listed choice labels.
+type Forced map[string]int
+
+func (f Forced) Intn(n int, label string) int {
+	if v, ok := f[label]; ok && v < n {
+		return v
+	}
+	return 0
+}
+
 type Pos struct {
 	Line int `json:"line"` // zero-based
 	Col  int `json:"col"`  // zero-based, in runes
@@ -118,8 +128,18 @@ func (w *writer) ows(def int) {
 
 var commentTexts = []string{"c", " comment", "", " type user", " define x: [user]", "# nested # hashes", " tab\there", " quote \" ' ", " [ ( { ", " é ünï", "   ", " model", " }"}
 
+// LongComment is a comment text of more than 64 KiB: a line of any length is a legal line (line-oriented readers with
+// a fixed buffer, e.g. bufio.Scanner with its default limit, silently stop in front of it).
+var LongComment = " l" + strings.Repeat("o", 66000) + "ng line"
+
 func (w *writer) commentText() string {
-	return commentTexts[w.pick(len(commentTexts), "ctext")]
+	i := w.pick(len(commentTexts), "ctext")
+	if i == len(commentTexts)-1 && w.pick(6, "ctext_long") == 5 {
+		// rare (about one comment in eighty)
+		w.feat["line-longer-than-64KiB"] = true
+		return LongComment
+	}
+	return commentTexts[i]
 }
 
 func (w *writer) indent(def int) {
